@@ -5,7 +5,10 @@ import (
 	"strings"
 )
 
-func init() { registry["C05"] = checkC05 }
+func init() {
+	registry["C05"] = checkC05
+	harnessList = append(harnessList, "h05")
+}
 
 type catLine struct{ Mode, Kind, ID, Name string }
 
@@ -192,11 +195,36 @@ func checkC05(e *RunEnv) *CheckResult {
 			return steps
 		},
 		CheckTrans: c05Trans,
+		// in every state with a commit (the staging area may differ from it): read-back of the tip
+		CheckState: func(c *Ctx, n *Node) []Violation {
+			a := n.Abs()
+			if a.Tip() == "" || n.Parent == nil {
+				return nil
+			}
+			tags := stateTags(a)
+			if snap, err := a.Snapshot(a.Tip()); err == nil {
+				tags = unionTags(nameSetTags(keys(snap)), tags)
+				if !mapsEqual(snap, a.IndexMap()) {
+					tags = append(tags, "index-differs-from-tip")
+				}
+			}
+			return c05Readback(c, n.State, a, tags, c.X.fullTrace(n, nil))
+		},
 	}
 	var sweep, special int
+	var hsum *HarnessSummary
+	var hvs []Violation
+	runH := func() []Violation {
+		vs, sum := runHarness(e, "h05", nil, func(shard int, journal, stderr string) *Violation {
+			return &Violation{Oracle: "no-fatal", Command: "tree-decode", Detail: "harness process died: " + stderr}
+		})
+		hsum = sum
+		return vs
+	}
 	k := e.pick(3, 4)
 	uni := append(append([]string{}, universe18...), "d/s/t/v w", "d  x", "a.b/c-d/e_f/g+h")
 	res := runSpecWith(e, spec, func(x *Explorer) {
+		hvs = runH()
 		base := x.BuildState(seedS0())
 		if base == nil {
 			return
@@ -236,7 +264,24 @@ func checkC05(e *RunEnv) *CheckResult {
 		cov["name_set_sweep_cases"] = sweep
 		cov["name_set_max_size"] = k
 		cov["special_id_cases"] = special
-		cov["states"] = x.States + sweep + special + 1
+		cov["states"] = x.States + sweep + special + 1 + hsum.Distinct
+		cov["in_module_trees"] = hsum.Evaluations
+		cov["evaluations"] = int(x.Transitions) + int(x.Probes) + hsum.Evaluations
+		cov["distinct_nontrivial"] = x.States + sweep + special + hsum.Distinct
+		cov["exhaustive"] = x.Exhaustive && hsum.Exhaustive
 	})
+	res.Violations = append(res.Violations, hvs...)
+	oldRejudge := res.Rejudge
+	var rerun []Violation
+	var rerunDone bool
+	res.Rejudge = func(v *Violation) []Violation {
+		if v.Case != nil {
+			if !rerunDone {
+				rerun, rerunDone = runH(), true
+			}
+			return rerun
+		}
+		return oldRejudge(v)
+	}
 	return res
 }
